@@ -54,6 +54,92 @@ func NewCtx(p *load.Program, prop, tier string) *Ctx {
 			pathx.FieldAlias[nw] = [2]string{old[:j], old[j+1:]}
 		}
 	}
+	// parameters that stand for one thing: every call site of an unexported
+	// function (or of a literal that is only ever called) passes the same
+	// constant, or a value read from the same place
+	pathx.StaticParam = map[*ssa.Parameter]ssa.Value{}
+	staticParam = pathx.StaticParam
+	{
+		var all []*ssa.Function
+		for _, pk := range []*ssa.Package{p.Root, p.Test} {
+			if pk != nil {
+				all = append(all, p.SourceFuncs(pk)...)
+			}
+		}
+		sites := map[*ssa.Function][]*ssa.CallCommon{}
+		escapes := map[*ssa.Function]bool{}
+		for _, f := range all {
+			for _, b := range f.Blocks {
+				for _, ins := range b.Instrs {
+					var called *ssa.Function
+					if ci, ok := ins.(ssa.CallInstruction); ok {
+						if called = ci.Common().StaticCallee(); called != nil {
+							sites[called] = append(sites[called], ci.Common())
+						}
+					}
+					for _, op := range ins.Operands(nil) {
+						if op == nil || *op == nil {
+							continue
+						}
+						g, isFn := (*op).(*ssa.Function)
+						if mc, isMC := (*op).(*ssa.MakeClosure); isMC {
+							g, isFn = mc.Fn.(*ssa.Function)
+						}
+						if !isFn || g == called {
+							continue
+						}
+						if _, isMC := ins.(*ssa.MakeClosure); isMC {
+							continue // judged where the closure value is used
+						}
+						escapes[g] = true
+					}
+				}
+			}
+		}
+		for _, f := range all {
+			if escapes[f] || len(sites[f]) == 0 {
+				continue
+			}
+			if o := f.Object(); o != nil && o.Exported() {
+				continue
+			}
+			for i, pr := range f.Params {
+				var rep ssa.Value
+				same := true
+				key := ""
+				for k, cc := range sites[f] {
+					if i >= len(cc.Args) {
+						same = false
+						break
+					}
+					a := cc.Args[i]
+					for {
+						if cv, ok := a.(*ssa.Convert); ok {
+							a = cv.X
+						} else if ct, ok := a.(*ssa.ChangeType); ok {
+							a = ct.X
+						} else {
+							break
+						}
+					}
+					var ak string
+					if kc, ok := a.(*ssa.Const); ok && kc.Value != nil {
+						ak = "const:" + kc.Value.ExactString()
+					} else if r := pathx.RoleOfValue(a); r.Path != "" {
+						ak = "role:" + r.Key() + "@" + r.Path
+					}
+					if ak == "" || (k > 0 && ak != key) {
+						same = false
+						break
+					}
+					key, rep = ak, cc.Args[i]
+				}
+				if same && rep != nil {
+					pathx.StaticParam[pr] = rep
+				}
+			}
+		}
+	}
 	// error sentinels: package-level variables of an interface type that only
 	// the package initialiser assigns (loads of them compare like constants)
 	assigned := map[*ssa.Global]bool{}
